@@ -225,8 +225,24 @@ Error BaseAssembler::embed_const_pool(const Label& label, const ConstPool& pool)
     return report_error(make_error(Error::kLabelAlreadyBound));
   }
 
-  ASMJIT_PROPAGATE(align(AlignMode::kData, uint32_t(pool.alignment())));
-  ASMJIT_PROPAGATE(bind(label));
+  // Bind the label at the aligned offset before padding - binding can be refused (a pending displacement that does not
+  // fit) and a refused call must not leave the padding behind.
+  uint32_t alignment = Support::max<uint32_t>(uint32_t(pool.alignment()), 1u);
+  uint64_t aligned_offset = Support::align_up<uint64_t>(offset(), alignment);
+
+  Error err = _code->bind_label(label, _section->section_id(), aligned_offset);
+  reset_inline_comment();
+  if (ASMJIT_UNLIKELY(err != Error::kOk)) {
+    return report_error(err);
+  }
+
+  ASMJIT_PROPAGATE(align(AlignMode::kData, alignment));
+
+#ifndef ASMJIT_NO_LOGGING
+  if (_logger) {
+    EmitterUtils::log_label_bound(this, label);
+  }
+#endif
 
   size_t size = pool.size();
   if (!size) {
